@@ -73,8 +73,12 @@ func clientLibThreads() []string {
 func closeScenario(p closeParams) func() {
 	return func() {
 		o := world.Opts{N: 1, SendBuffer: p.buf, Window: 1}
-		if p.state == "down" {
+		if p.state == "down" || p.state == "blocking-dial-late-up" {
 			o.Down = []bool{true}
+		}
+		if p.state == "blocking-dial-late-up" {
+			// grpc.WithBlock: the dial at creation times out and leaves the node without a connection
+			o.BlockingDial = true
 		}
 		w := world.New(o)
 		if w.Cfg == nil {
@@ -88,6 +92,10 @@ func closeScenario(p closeParams) func() {
 				h.Send(0, 0)
 			}
 			return world.Reply{}
+		}
+		if p.state == "blocking-dial-late-up" {
+			w.FW.Restart(world.Addr(1)) // the server starts listening after the manager was created
+			mc.Quiesce()
 		}
 		if p.state == "backoff" {
 			w.FW.Crash(world.Addr(1))
@@ -205,7 +213,7 @@ func closeInstances(tier string) []Instance {
 	i := 0
 	for _, kd := range kinds {
 		for _, buf := range []uint{0, 1, 2} {
-			for _, st := range []string{"connected", "down", "backoff"} {
+			for _, st := range []string{"connected", "down", "backoff", "blocking-dial-late-up"} {
 				for _, blocks := range []bool{true, false} {
 					for _, closers := range []int{1, 2} {
 						if !thorough(tier) && ((closers == 2 && (buf == 2 || !blocks)) || (buf == 2 && !blocks)) {
@@ -238,7 +246,7 @@ func closeInstances(tier string) []Instance {
 
 func init() {
 	register(&Check{ID: "C12",
-		Rule: "9 in-flight call variants with never-ending contexts (optionally two calls) x send buffer {0,1,2} x node state {connected, down at creation, crashed with the receiver in back-off} x handler {never answers, answers} x 1 or 2 concurrent Close calls as free-running threads placed by the explorer at every instant within the deviation bound (call queued, being written, awaiting replies), then a call of a rotating type issued after Close, then a further sequential Close; plus Close on a WithNoConnect manager; back-off timers are fired to a horizon before each oracle; oracle: no panic, every Close returns, every in-flight and post-Close call returns (with an error where the API has one), no client library goroutine is alive and every connection is closed at the end; an outcome is (instance, completion summary)",
+		Rule: "9 in-flight call variants with never-ending contexts (optionally two calls) x send buffer {0,1,2} x node state {connected, down at creation, crashed with the receiver in back-off, blocking dial timed out at creation and the server came up later} x handler {never answers, answers} x 1 or 2 concurrent Close calls as free-running threads placed by the explorer at every instant within the deviation bound (call queued, being written, awaiting replies), then a call of a rotating type issued after Close, then a further sequential Close; plus Close on a WithNoConnect manager; back-off timers are fired to a horizon before each oracle; oracle: no panic, every Close returns, every in-flight and post-Close call returns (with an error where the API has one), no client library goroutine is alive and every connection is closed at the end; an outcome is (instance, completion summary)",
 		Gen:  closeInstances,
 		Assumptions: []string{"'within bounded time' is decided in its eventual untimed form: after firing the armed library timers 4 rounds", "server-side goroutines (handlers that block forever by construction) are not counted as manager residue"},
 	})
